@@ -127,12 +127,16 @@ def tail_programs(b):
     for nm, mk in calls.items():
         for (x, y) in ((5, 1), (-1, 2), (3, 0), (1, 1), (4, 3)):
             for style in ("lc", "bool"):
-                for variant in ("T", "G"):
+                for variant in ("T", "G", "E0", "E1"):
                     B = gen.Builder("tail/%s/%d,%d/%s/%s" % (nm, x, y, style, variant), "plain", None, {"op": "tail_" + nm, "kinds": "S", "variant": variant})
                     rx, ry = B.opnd(("S", x)), B.opnd(("S", y & 1 if nm == "unpack" else y))
                     if variant == "G":
                         rg = B.opnd(("SB" if style == "bool" else "S", 0))
                         B.add({"op": "guarded", "cond": rg, "body": [mk(rx)]})
+                    elif variant in ("E0", "E1"):
+                        # the region (guard 0 / 1) is left through an exception that the program catches
+                        rg = B.opnd(("SB" if style == "bool" else "S", int(variant[1])))
+                        B.add({"op": "try", "body": [{"op": "guarded", "cond": rg, "body": [{"op": "raise"}]}]})
                     t1 = mk(ry)
                     t1["tag"] = "tail"
                     B.add(t1)
@@ -211,13 +215,13 @@ def main(tier):
     tp = tail_programs(b)
     tt = {t["id"]: t for t in common.run_programs(cfg, tp, fresh=True)}
     for p in tp:
-        if p["meta"]["variant"] != "G":
+        if p["meta"]["variant"] == "T":
             continue
-        tid_ = p["id"][:-2]
-        triples.append({"id": tid_, "ids": [tid_ + "/T", p["id"], p["id"]], "u": tail_events(tt[tid_ + "/T"]), "g1": tail_events(tt[p["id"]]), "g0": [], "bodylen": 0, "cut": False})
+        tid_ = p["id"][:p["id"].rindex("/")]
+        triples.append({"id": p["id"], "ids": [tid_ + "/T", p["id"], p["id"]], "u": tail_events(tt[tid_ + "/T"]), "g1": tail_events(tt[p["id"]]), "g0": [], "bodylen": 0, "cut": False})
         pbyid[tid_ + "/T"] = next(q for q in tp if q["id"] == tid_ + "/T")
         pbyid[p["id"]] = p
-        run.nontrivial.add((p["meta"]["op"], "tail", p["id"].split("/")[-2], "g0"))
+        run.nontrivial.add((p["meta"]["op"], "tail", p["id"].split("/")[-2], p["meta"]["variant"]))
     run.evaluations += len(triples)
     run.samples = [{"body": pbyid[triples[0]["ids"][0]]["steps"], "guarded_true": pbyid[triples[0]["ids"][1]]["steps"]}]
     from concurrent.futures import ThreadPoolExecutor
